@@ -7,16 +7,26 @@ package c05
 
 import (
 	"bytes"
+	"context"
 	"encoding/json"
 	"fmt"
+	"github.com/aws/aws-sdk-go-v2/aws"
+	"github.com/aws/aws-sdk-go-v2/credentials"
+	"github.com/aws/aws-sdk-go-v2/service/s3"
+	"github.com/tailscale/setec/server"
+	"io"
 	"math/rand/v2"
+	"net/http"
 	"os"
 	"path/filepath"
 	"runtime"
+	"strings"
 	"sync"
 	"sync/atomic"
 	"syscall"
 	"testing"
+	"testing/synctest"
+	"time"
 
 	"github.com/tailscale/setec/audit"
 	"github.com/tailscale/setec/client/setec"
@@ -108,10 +118,12 @@ func TestC05(t *testing.T) {
 		tamper(t, r, tmp)
 		crashTemporaries(t, r, tmp)
 		cacheCreation(t, r, tmp)
+		runningServerBackups(t, r, tmp)
+		auditLogFiles(t, r, tmp)
 		longLivedHandle(t, r, tmp)
 		clientCacheModes(t, r, tmp)
 	}
-	r.Require("files_scanned", "scans_after_operation", "kek_checks", "kek_checks_after_reopen", "bit_flips", "truncations", "splices", "foreign_key_opens", "tampered_opens_rejected", "crash_point_scans", "temporaries_scanned", "mode_checks", "kek_checks_after_failed_write", "kek_checks_long_lived_handle", "client_cache_mode_checks")
+	r.Require("files_scanned", "scans_after_operation", "kek_checks", "kek_checks_after_reopen", "bit_flips", "truncations", "splices", "foreign_key_opens", "tampered_opens_rejected", "crash_point_scans", "temporaries_scanned", "mode_checks", "kek_checks_after_failed_write", "kek_checks_long_lived_handle", "client_cache_mode_checks", "creating_open_calls_observed", "cache_crash_point_scans", "backup_uploads_scanned", "audit_dir_mode_checks")
 	r.Rule("histories of 15-25 operations with marker names and values on a state directory holding the database and a real audit log, every file scanned after every operation, KEK call counter read after every operation (also after a reopen); tamper loop on saved files: every single-bit flip, every truncation length, version-field edits, DEK/DB splices between databases under the same and under a different KEK, foreign KEKs; crash points of a save scanned for plaintext in temporaries. Distinct = (operation kind, file kind) for scans and (tamper kind, outcome)")
 }
 
@@ -553,6 +565,138 @@ func cacheCreation(t *testing.T, r *evid.Run, tmp string) {
 			}
 		}
 		r.Distinct(fmt.Sprintf("cache creation pre-existing=%t", pre))
+	}
+}
+
+// memS3 is an in-memory S3 endpoint that accepts everything and keeps the uploaded bodies.
+type memS3 struct {
+	mu     sync.Mutex
+	bodies [][]byte
+}
+
+func (e *memS3) RoundTrip(req *http.Request) (*http.Response, error) {
+	var body []byte
+	if req.Body != nil {
+		body, _ = io.ReadAll(req.Body)
+		req.Body.Close()
+	}
+	e.mu.Lock()
+	e.bodies = append(e.bodies, body)
+	e.mu.Unlock()
+	h := http.Header{"Content-Type": {"application/xml"}, "X-Amz-Request-Id": {"verif"}, "ETag": {`"d41d8cd98f00b204e9800998ecf8427e"`}}
+	return &http.Response{StatusCode: 200, Status: "200", Header: h, Body: io.NopCloser(strings.NewReader("")), Request: req, Proto: "HTTP/1.1", ProtoMajor: 1, ProtoMinor: 1}, nil
+}
+
+// runningServerBackups: the server's own periodic backup task (the real loop, through the verif hook) runs for
+// virtual hours beside writes. It is part of "a running server": the key-encryption key must not be consulted
+// by it, and what it uploads is a file the server writes, so it must not expose names or values either.
+func runningServerBackups(t *testing.T, r *evid.Run, tmp string) {
+	rng := r.Rand(717171)
+	name := markerName(rng)
+	f := scan.NewFinder()
+	f.Add("name "+name, []byte(name))
+	var vals [][]byte
+	for i := 0; i < 6; i++ {
+		v := markerValue(rng)
+		vals = append(vals, v)
+		f.Add(fmt.Sprintf("value %d", i), v)
+	}
+	dir := filepath.Join(tmp, "backups")
+	os.MkdirAll(dir, 0o700)
+	kek := newKEK(t)
+	synctest.Test(t, func(t *testing.T) {
+		d, err := realdb.Open(filepath.Join(dir, "db"), kek)
+		if err != nil {
+			t.Fatal(err)
+		}
+		after := kek.calls()
+		ep := &memS3{}
+		cfg := aws.Config{Region: "us-east-1", Credentials: credentials.NewStaticCredentialsProvider("AKIDVERIF", "SECRETVERIF", ""), HTTPClient: &http.Client{Transport: ep}}
+		client := s3.NewFromConfig(cfg, func(o *s3.Options) {
+			o.BaseEndpoint = aws.String("http://s3.verif.invalid")
+			o.UsePathStyle = true
+		})
+		ctx, cancel := context.WithCancel(context.Background())
+		done := make(chan struct{})
+		go func() { defer close(done); server.VerifRunPeriodicBackup(ctx, d, client, "backup-bucket") }()
+		su := realdb.Super()
+		for i, v := range vals {
+			time.Sleep(time.Duration(1+rng.IntN(4)) * time.Minute)
+			d.Put(su, name, v)
+			if i%2 == 1 {
+				d.Activate(su, name, 1)
+			}
+			time.Sleep(90 * time.Second)
+			synctest.Wait()
+			r.Eval(1)
+			if c := kek.calls(); c != after {
+				r.Violation("kek-used-after-open", -1, fmt.Sprintf("with the server's backup task running, %d call(s) to the key-encryption key were made after the database had been opened (by write #%d or the backup that followed it)", c-after, i+1), nil)
+				break
+			}
+		}
+		cancel()
+		<-done
+		ep.mu.Lock()
+		defer ep.mu.Unlock()
+		r.Count("backup_uploads_scanned", len(ep.bodies))
+		for i, b := range ep.bodies {
+			if hit, ok := f.Find(b); ok {
+				r.Violation("plaintext-in-backup", -1, fmt.Sprintf("backup upload #%d (%d bytes) contains %s", i, len(b), hit), nil)
+				break
+			}
+		}
+		if len(ep.bodies) == 0 {
+			r.Inconclusive("running server: the backup task uploaded nothing")
+		}
+	})
+	r.Distinct("running server with backups")
+}
+
+// auditLogFiles: the audit log is opened by name again and again over a server's life (every restart), small
+// and large. Whatever files exist beside it afterwards (the log itself, anything it was rotated or archived to)
+// are readable by the owner only, and the log has kept every record.
+func auditLogFiles(t *testing.T, r *evid.Run, tmp string) {
+	dir := filepath.Join(tmp, "auditdir")
+	os.MkdirAll(dir, 0o700)
+	p := filepath.Join(dir, "audit.log")
+	old := syscall.Umask(0o022)
+	defer syscall.Umask(old)
+	// a log that is already big when the server starts (as after months of operation); sparse, so it costs nothing
+	sizes := []int64{0, 1 << 20, 70 << 20, 1<<30 + 5}
+	for round, sz := range sizes {
+		if sz > 0 {
+			fh, err := os.OpenFile(p, os.O_WRONLY|os.O_CREATE, 0o600)
+			if err != nil {
+				t.Fatal(err)
+			}
+			fh.Truncate(sz)
+			fh.Close()
+		}
+		w, err := audit.NewFile(p)
+		if err != nil {
+			r.Violation("audit-log-does-not-open", -1, fmt.Sprintf("audit.NewFile on a %d-byte log: %v", sz, err), nil)
+			return
+		}
+		d, err := db.Open(filepath.Join(dir, "db"), realdb.DummyKey("c05-audit"), w)
+		if err != nil {
+			t.Fatal(err)
+		}
+		d.Put(realdb.Super(), fmt.Sprintf("audited/%d", round), []byte("v"))
+		w.Close()
+		ents, _ := os.ReadDir(dir)
+		for _, e := range ents {
+			fi, err := e.Info()
+			if err != nil {
+				continue
+			}
+			r.Eval(1)
+			r.Count("audit_dir_mode_checks", 1)
+			if fi.Mode().Perm()&0o077 != 0 {
+				r.Violation("mode-audit-file", -1, fmt.Sprintf("after restart #%d with a %d-byte audit log, %s has mode %o (umask 022): readable by others", round, sz, e.Name(), fi.Mode().Perm()), nil)
+				return
+			}
+		}
+		r.Distinct(fmt.Sprintf("audit log reopened at size class %d", round))
 	}
 }
 
